@@ -1,12 +1,17 @@
 package atomicfs
 
 // C24 driver (engine "proto").  Exhaustive on the real code: for every start
-// directory reachable by crashes, every script of Move / RemoveObsolete calls
-// (with at most one injected Remove error) within the bounds, a crash clone is
-// taken after EVERY filesystem operation with EVERY subset of the unsynced
-// directory entries ((*MemFS).CrashCloneWith from the overlay), ReadMarker is
-// evaluated on each clone, and each clone becomes a new start directory (the
-// process "restarts" there) while the crash budget lasts.  Go only executes and
+// directory reachable by crashes, every script of Move / RemoveObsolete /
+// re-LocateMarker calls within the bounds - with injected I/O errors at every
+// filesystem step of Move (Create with and without the file coming into
+// existence, the marker file's Sync, its Close, the Remove of the old marker,
+// the directory Sync, which makes Move panic) and of RemoveObsolete, and with
+// retries of a failed Move with the same and with a different value - a crash
+// clone is taken after EVERY filesystem operation with EVERY subset of the
+// unsynced directory entries ((*MemFS).CrashCloneWith from the overlay),
+// ReadMarker is evaluated on each clone and the clone's directory listing is
+// recorded, and each clone becomes a new start directory (the process
+// "restarts" there) while the crash budget lasts.  Go only executes and
 // records; the trace is judged by TLC (spec/Marker/MarkerTrace.tla).
 
 import (
@@ -112,25 +117,50 @@ type vProtoMkFileW struct {
 	f     vProtoMkFile
 }
 
+// takeFault reports (and consumes) the injected error of the current call if it is aimed at this kind of op.
+func (r *vProtoMkRun) takeFault(kinds ...string) string {
+	for _, k := range kinds {
+		if r.fault == k {
+			r.fault = ""
+			return k
+		}
+	}
+	return ""
+}
+
+var errVProtoMkInjected = errors.New("verif: injected I/O error")
+
 func (w *vProtoMkFS) Create(name string, cat vfs.DiskWriteCategory) (vfs.File, error) {
+	mf, isMarker := vProtoMkParse(w.FS.PathBase(name))
+	if isMarker {
+		switch w.x.takeFault("create", "createlost") {
+		case "create": // the error is returned and nothing was created
+			w.x.afterOp("create", mf, false, false)
+			return nil, errVProtoMkInjected
+		case "createlost": // the file came into existence but the acknowledgement was lost
+			if f, err := w.FS.Create(name, cat); err == nil {
+				f.Close()
+				w.x.afterOp("create", mf, false, true)
+				return nil, errVProtoMkInjected
+			}
+		}
+	}
 	f, err := w.FS.Create(name, cat)
 	if err != nil {
 		return nil, err
 	}
-	mf, _ := vProtoMkParse(w.FS.PathBase(name))
-	w.x.afterOp("create", mf, true)
+	w.x.afterOp("create", mf, true, true)
 	return &vProtoMkFileW{File: f, x: w.x, f: mf}, nil
 }
 
 func (w *vProtoMkFS) Remove(name string) error {
 	mf, _ := vProtoMkParse(w.FS.PathBase(name))
-	if w.x.failRemove {
-		w.x.failRemove = false
-		w.x.afterOp("remove", mf, false)
-		return errors.New("verif: injected remove error")
+	if w.x.takeFault("remove") != "" {
+		w.x.afterOp("remove", mf, false, false)
+		return errVProtoMkInjected
 	}
 	err := w.FS.Remove(name)
-	w.x.afterOp("remove", mf, err == nil)
+	w.x.afterOp("remove", mf, err == nil, err == nil)
 	return err
 }
 
@@ -143,19 +173,31 @@ func (w *vProtoMkFS) OpenDir(name string) (vfs.File, error) {
 }
 
 func (f *vProtoMkFileW) Sync() error {
-	err := f.File.Sync()
 	if f.isDir {
-		f.x.afterOp("syncdir", vProtoMkFile{}, err == nil)
-	} else {
-		f.x.afterOp("syncfile", f.f, err == nil)
+		if f.x.takeFault("syncdir") != "" {
+			f.x.afterOp("syncdir", vProtoMkFile{}, false, false)
+			return errVProtoMkInjected
+		}
+		err := f.File.Sync()
+		f.x.afterOp("syncdir", vProtoMkFile{}, err == nil, err == nil)
+		return err
 	}
+	if f.x.takeFault("syncfile") != "" {
+		f.x.afterOp("syncfile", f.f, false, false)
+		return errVProtoMkInjected
+	}
+	err := f.File.Sync()
+	f.x.afterOp("syncfile", f.f, err == nil, err == nil)
 	return err
 }
 
 func (f *vProtoMkFileW) Close() error {
 	err := f.File.Close()
 	if !f.isDir {
-		f.x.afterOp("close", f.f, err == nil)
+		if err == nil && f.x.takeFault("close") != "" {
+			err = errVProtoMkInjected
+		}
+		f.x.afterOp("close", f.f, err == nil, err == nil)
 	}
 	return err
 }
@@ -165,10 +207,11 @@ type vProtoMkItem struct {
 	files       []vProtoMkFile
 	movesLeft   int
 	crashesLeft int
+	faultsLeft  int
 }
 
 func (it vProtoMkItem) key() string {
-	return fmt.Sprint(it.files, it.movesLeft, it.crashesLeft)
+	return fmt.Sprint(it.files, it.movesLeft, it.crashesLeft, it.faultsLeft)
 }
 
 type vProtoMkExplorer struct {
@@ -177,8 +220,10 @@ type vProtoMkExplorer struct {
 	queue    []vProtoMkItem
 	scriptLn int
 	// stats
-	scripts, clones, nontrivial, restarts int
-	listings                              map[string]bool
+	scripts, clones, nontrivial, restarts, failedMoves, retriesSame, retriesOther, panics, relocates int
+	retryStepsSame, retryStepsOther                                                                  int // as scripted (expected failures), whatever the code did
+	listings                                                                                         map[string]bool
+	faultsInjected                                                                                   map[string]int
 }
 
 type vProtoMkRun struct {
@@ -187,7 +232,8 @@ type vProtoMkRun struct {
 	item       vProtoMkItem
 	n          int
 	movesUsed  int
-	failRemove bool
+	faultsUsed int
+	fault      string // the injected error of the call in progress ("" = none / already delivered)
 }
 
 // crash clones after the op that just completed
@@ -216,15 +262,17 @@ func (r *vProtoMkRun) clones() {
 			return isDirEntry && keep[path]
 		})
 		res := vProtoMkRead(clone)
-		r.e.t.emit(map[string]any{"op": "crashread", "n": r.n, "keep": vProtoMkJSON(keepF), "unsynced": vProtoMkJSON(unsF), "res": res})
+		ls := vProtoMkFiles(clone)
+		r.e.t.emit(map[string]any{"op": "crashread", "n": r.n, "keep": vProtoMkJSON(keepF), "unsynced": vProtoMkJSON(unsF),
+			"files": vProtoMkJSON(ls), "res": res})
 		r.e.clones++
 		if len(uns) > 0 {
 			r.e.nontrivial++
 		}
-		ls := vProtoMkFiles(clone)
 		r.e.listings[fmt.Sprint(ls)] = true
 		if r.item.crashesLeft > 0 && r.item.movesLeft-r.movesUsed > 0 && r.n > 0 {
-			ni := vProtoMkItem{files: ls, movesLeft: r.item.movesLeft - r.movesUsed, crashesLeft: r.item.crashesLeft - 1}
+			ni := vProtoMkItem{files: ls, movesLeft: r.item.movesLeft - r.movesUsed, crashesLeft: r.item.crashesLeft - 1,
+				faultsLeft: r.item.faultsLeft - r.faultsUsed}
 			if !r.e.seen[ni.key()] {
 				r.e.seen[ni.key()] = true
 				r.e.queue = append(r.e.queue, ni)
@@ -234,49 +282,71 @@ func (r *vProtoMkRun) clones() {
 	}
 }
 
-func (r *vProtoMkRun) afterOp(kind string, f vProtoMkFile, ok bool) {
+// made: the op took effect on the filesystem (differs from ok only for a Create whose acknowledgement was lost)
+func (r *vProtoMkRun) afterOp(kind string, f vProtoMkFile, ok, made bool) {
 	r.n++
-	r.e.t.emit(map[string]any{"op": "fs", "n": r.n, "kind": kind, "it": f[0], "v": f[1], "ok": ok})
+	r.e.t.emit(map[string]any{"op": "fs", "n": r.n, "kind": kind, "it": f[0], "v": f[1], "ok": ok, "made": made})
 	r.clones()
 }
 
-// scripts: all sequences of exactly `ln` ops over M (Move), F (Move whose Remove of the old
-// file fails), R (RemoveObsolete), Q (RemoveObsolete whose first Remove fails), with at most
-// `moves` moves, at most one injected failure and no two RemoveObsolete in a row.  Prefixes
-// need no separate run: the crash clones of a prefix are those of the longer script.
-func vProtoMkScripts(ln, moves int) []string {
-	var res []string
-	var rec func(cur string, m, fails int)
-	rec = func(cur string, m, fails int) {
-		if len(cur) == ln {
-			res = append(res, cur)
+// One step of a script: "M" Move to a fresh value, "m" Move to the value of the previous Move, which
+// returned an error (a retry with the same value), "R" RemoveObsolete, "L" Close + LocateMarker on the
+// live directory; "M"/"m"/"R" optionally carry an injected error: "M!syncfile", "R!remove", ...
+var vProtoMkMoveFaults = []string{"create", "createlost", "syncfile", "close", "remove", "syncdir"}
+
+// scripts: all sequences of exactly `ln` steps with at most `moves` Moves and at most `faults` injected
+// errors, no two RemoveObsolete and no two re-locates in a row, nothing after a Move that panicked
+// (directory Sync error).  Prefixes need no separate run: the crash clones of a prefix are those of
+// the longer script.
+func vProtoMkScripts(ln, moves, faults int) [][]string {
+	var res [][]string
+	var rec func(cur []string, m, fl int, lastFailed bool)
+	rec = func(cur []string, m, fl int, lastFailed bool) {
+		last := ""
+		if len(cur) > 0 {
+			last = cur[len(cur)-1]
+		}
+		if len(cur) == ln || strings.HasSuffix(last, "!syncdir") {
+			res = append(res, append([]string(nil), cur...))
 			return
 		}
 		ext := false
 		if m < moves {
-			rec(cur+"M", m+1, fails)
-			ext = true
-			if fails == 0 {
-				rec(cur+"F", m+1, 1)
+			kinds := []string{"M"}
+			if lastFailed {
+				kinds = append(kinds, "m")
+			}
+			for _, k := range kinds {
+				rec(append(cur, k), m+1, fl, false)
+				ext = true
+				if fl < faults {
+					for _, f := range vProtoMkMoveFaults {
+						// an error of the Remove of the old marker does not fail the Move
+						rec(append(cur, k+"!"+f), m+1, fl+1, f != "remove")
+					}
+				}
 			}
 		}
-		lastR := len(cur) > 0 && (cur[len(cur)-1] == 'R' || cur[len(cur)-1] == 'Q')
-		if !lastR {
-			rec(cur+"R", m, fails)
+		if last == "" || last[0] != 'R' {
+			rec(append(cur, "R"), m, fl, lastFailed)
 			ext = true
-			if fails == 0 {
-				rec(cur+"Q", m, 1)
+			if fl < faults {
+				rec(append(cur, "R!remove"), m, fl+1, lastFailed)
 			}
 		}
-		if !ext && cur != "" {
-			res = append(res, cur)
+		if last != "" && last != "L" {
+			rec(append(cur, "L"), m, fl, lastFailed)
+			ext = true
+		}
+		if !ext && len(cur) > 0 {
+			res = append(res, append([]string(nil), cur...))
 		}
 	}
-	rec("", 0, 0)
+	rec(nil, 0, 0, false)
 	return res
 }
 
-func (e *vProtoMkExplorer) runScript(item vProtoMkItem, script string) {
+func (e *vProtoMkExplorer) runScript(item vProtoMkItem, script []string) {
 	mem := vfs.NewCrashableMem()
 	if err := mem.MkdirAll(vProtoMkDir, 0755); err != nil {
 		panic(err)
@@ -309,33 +379,85 @@ func (e *vProtoMkExplorer) runScript(item vProtoMkItem, script string) {
 	}
 	e.scripts++
 	e.t.emit(map[string]any{"op": "start", "files": vProtoMkJSON(item.files), "val": vProtoMkValID(val), "script": script,
-		"movesleft": item.movesLeft, "crashesleft": item.crashesLeft})
+		"movesleft": item.movesLeft, "crashesleft": item.crashesLeft, "faultsleft": item.faultsLeft})
 	r.clones()
-	for _, c := range script {
-		switch c {
-		case 'M', 'F':
-			maxv++
+	lastFailed := false
+	scriptedFail := false // the previous step was a Move scripted to fail
+	for _, step := range script {
+		kind, fault := step, ""
+		if i := strings.IndexByte(step, '!'); i >= 0 {
+			kind, fault = step[:i], step[i+1:]
+		}
+		if kind == "m" {
+			e.retryStepsSame++
+		} else if kind == "M" && scriptedFail {
+			e.retryStepsOther++
+		}
+		if kind == "M" || kind == "m" {
+			scriptedFail = fault != "" && fault != "remove"
+		}
+		if fault != "" {
+			r.faultsUsed++
+			e.faultsInjected[kind+"!"+fault]++
+		}
+		r.fault = fault
+		dead := false
+		switch kind {
+		case "M", "m":
+			if kind == "M" {
+				maxv++
+			} else if lastFailed {
+				e.retriesSame++
+			}
+			if kind == "M" && lastFailed {
+				e.retriesOther++
+			}
 			r.movesUsed++
-			r.failRemove = c == 'F'
 			e.t.emit(map[string]any{"op": "call", "what": "move", "v": maxv})
-			err := mk.Move(fmt.Sprintf("v%d", maxv))
-			r.failRemove = false
-			e.t.emit(map[string]any{"op": "ret", "what": "move", "ok": err == nil})
-			r.clones() // Move returned: the new value must survive every crash from here on
-		case 'R', 'Q':
-			r.failRemove = c == 'Q'
+			var err error
+			func() {
+				defer func() {
+					if p := recover(); p != nil {
+						dead = true
+						err = fmt.Errorf("panic: %v", p)
+					}
+				}()
+				err = mk.Move(fmt.Sprintf("v%d", maxv))
+			}()
+			e.t.emit(map[string]any{"op": "ret", "what": "move", "ok": err == nil, "panic": dead})
+			lastFailed = err != nil
+			if err != nil {
+				e.failedMoves++
+			}
+			if dead {
+				e.panics++
+			}
+			r.clones() // Move returned nil: the new value must survive every crash from here on
+		case "R":
 			e.t.emit(map[string]any{"op": "call", "what": "removeobsolete", "v": 0})
 			err := mk.RemoveObsolete()
-			r.failRemove = false
-			e.t.emit(map[string]any{"op": "ret", "what": "removeobsolete", "ok": err == nil})
+			e.t.emit(map[string]any{"op": "ret", "what": "removeobsolete", "ok": err == nil, "panic": false})
 			r.clones()
+		case "L":
+			mk.Close()
+			var v string
+			mk, v, err = LocateMarker(wfs, vProtoMkDir, vProtoMkName)
+			if err != nil {
+				panic(err)
+			}
+			e.relocates++
+			e.t.emit(map[string]any{"op": "relocate", "files": vProtoMkJSON(vProtoMkFiles(mem)), "val": vProtoMkValID(v)})
 		}
-		e.t.emit(map[string]any{"op": "liveread", "res": vProtoMkRead(mem)})
+		r.fault = ""
+		if dead {
+			break // the process is dying: only the crash clones above
+		}
+		e.t.emit(map[string]any{"op": "liveread", "res": vProtoMkRead(mem), "files": vProtoMkJSON(vProtoMkFiles(mem))})
 	}
 	mk.Close()
 }
 
-// TestVProtoMarker: VERIF_OUT (dir), VERIF_MOVES, VERIF_LEN, VERIF_CRASHES.
+// TestVProtoMarker: VERIF_OUT (dir), VERIF_MOVES, VERIF_LEN, VERIF_CRASHES, VERIF_FAULTS.
 func TestVProtoMarker(t *testing.T) {
 	out := os.Getenv("VERIF_OUT")
 	if out == "" {
@@ -347,14 +469,14 @@ func TestVProtoMarker(t *testing.T) {
 		}
 		return d
 	}
-	moves, ln, crashes := geti("VERIF_MOVES", 3), geti("VERIF_LEN", 4), geti("VERIF_CRASHES", 2)
+	moves, ln, crashes, faults := geti("VERIF_MOVES", 3), geti("VERIF_LEN", 4), geti("VERIF_CRASHES", 2), geti("VERIF_FAULTS", 1)
 	f, err := os.Create(out + "/marker.ndjson")
 	if err != nil {
 		t.Fatal(err)
 	}
 	tr := &vProtoMkTrace{w: bufio.NewWriterSize(f, 1<<20)}
-	e := &vProtoMkExplorer{t: tr, seen: map[string]bool{}, listings: map[string]bool{}, scriptLn: ln}
-	first := vProtoMkItem{files: nil, movesLeft: moves, crashesLeft: crashes}
+	e := &vProtoMkExplorer{t: tr, seen: map[string]bool{}, listings: map[string]bool{}, scriptLn: ln, faultsInjected: map[string]int{}}
+	first := vProtoMkItem{files: nil, movesLeft: moves, crashesLeft: crashes, faultsLeft: faults}
 	e.seen[first.key()] = true
 	e.queue = append(e.queue, first)
 	items := 0
@@ -362,14 +484,17 @@ func TestVProtoMarker(t *testing.T) {
 		it := e.queue[0]
 		e.queue = e.queue[1:]
 		items++
-		for _, s := range vProtoMkScripts(ln, it.movesLeft) {
+		for _, s := range vProtoMkScripts(ln, it.movesLeft, it.faultsLeft) {
 			e.runScript(it, s)
 		}
 	}
 	tr.w.Flush()
 	f.Close()
 	st, _ := json.Marshal(map[string]any{"items": items, "scripts": e.scripts, "clones": e.clones, "nontrivial_clones": e.nontrivial,
-		"events": tr.n, "distinct_crash_listings": len(e.listings), "moves": moves, "len": ln, "crashes": crashes})
+		"events": tr.n, "distinct_crash_listings": len(e.listings), "moves": moves, "len": ln, "crashes": crashes, "faults": faults,
+		"failed_moves": e.failedMoves, "retries_same_value": e.retriesSame, "retries_other_value": e.retriesOther,
+		"move_panics": e.panics, "relocates": e.relocates,
+		"retry_steps_same_value": e.retryStepsSame, "retry_steps_other_value": e.retryStepsOther, "faults_injected": e.faultsInjected})
 	fmt.Printf("DRIVER-STATS %s\n", st)
 	fmt.Printf("DRIVER-DONE\n")
 }
